@@ -155,11 +155,12 @@ static void make_work(std::vector<Work> &ws, int m, int n, unsigned seed) {
     for (int i = 0; i < m; i++) { ws[i].g = gates[i % 8];
         for (int q = 0; q < 3; q++) { ws[i].in[q].resize(n + 1); for (int j = 0; j <= n; j++) ws[i].in[q][j] = (int32_t) rg(); } }
 }
-static void unrelated_fft(unsigned seed, int reps) {   // FFT products of unrelated polynomials on the calling thread
-    std::mt19937 rg(seed); const int N = 1024;
+static uint64_t unrelated_fft(unsigned seed, int reps) {   // FFT products of unrelated polynomials on the calling thread; hash of the results
+    std::mt19937 rg(seed); const int N = 1024; uint64_t h = 0;
     IntPolynomial *A = new_IntPolynomial(N); TorusPolynomial *B = new_TorusPolynomial(N), *R = new_TorusPolynomial(N);
-    for (int r = 0; r < reps; r++) { for (int i = 0; i < N; i++) { A->coefs[i] = (int32_t) (rg() % 1024) - 512; B->coefsT[i] = (int32_t) rg(); } torusPolynomialMultFFT(R, A, B); }
+    for (int r = 0; r < reps; r++) { for (int i = 0; i < N; i++) { A->coefs[i] = (int32_t) (rg() % 1024) - 512; B->coefsT[i] = (int32_t) rg(); } torusPolynomialMultFFT(R, A, B); h = fnv(R->coefsT, 4 * N, h + 3); }
     delete_TorusPolynomial(R); delete_TorusPolynomial(B); delete_IntPolynomial(A);
+    return h;
 }
 // threads <spec> nthreads iters mode : mode bit 0: yields/random start offsets, bit 1: a key-generation thread with its own data runs alongside,
 //   bit 2: each worker interleaves unrelated FFT products, bit 3: threads are created and destroyed once per item instead of once
@@ -168,7 +169,8 @@ static void op_threads(const V &a, V &r) {
     const int n = cur.params->in_out_params->n; const ll *v = a.data() + SPECN; int nt = v[0], iters = v[1], mode = v[2];
     std::vector<Work> ws; make_work(ws, iters, n, (unsigned) v[3]);
     for (auto &wk : ws) eval_work(wk, wk.ref, n);          // sequential reference on the main thread
-    std::atomic<long> mism(0), evals(0); std::atomic<bool> stop(false);
+    uint64_t fref[8]; for (int q = 0; q < 8; q++) fref[q] = unrelated_fft(1000 + q + (unsigned) v[3], 1 + q % 3);   // and of the unrelated products
+    std::atomic<long> mism(0), evals(0), fmism(0); std::atomic<bool> stop(false);
     std::thread keygen;
     if (mode & 2) keygen = std::thread([&]() {   // its own parameter objects and keys; uses the global generator (not touched by evaluation)
         while (!stop) { LweParams *lp = new_LweParams(300, 1e-5, 0.01); LweKey *kk = new_LweKey(lp); lweKeyGen(kk); LweSample *c = new_LweSample(lp);
@@ -178,14 +180,33 @@ static void op_threads(const V &a, V &r) {
         if (mode & 1) for (unsigned s = rg() % 2000; s > 0; s--) std::this_thread::yield();
         for (int i = from; i < to; i++) {
             const Work &wk = ws[(i + id * 3) % iters]; std::vector<int32_t> o;
-            if (mode & 4) unrelated_fft(rg(), 1 + rg() % 3);
+            if (mode & 4) { int q = rg() % 8; if (unrelated_fft(1000 + q + (unsigned) v[3], 1 + q % 3) != fref[q]) fmism++; }
             eval_work(wk, o, n); evals++;
             if (o != wk.ref) mism++;
             if (mode & 1) std::this_thread::yield();
         } };
-    if (mode & 8) { for (int i = 0; i < iters; i++) { std::vector<std::thread> th; for (int t = 0; t < nt; t++) th.emplace_back(worker, t, i, i + 1); for (auto &t : th) t.join(); } }
-    else { std::vector<std::thread> th; for (int t = 0; t < nt; t++) th.emplace_back(worker, t, 0, iters); for (auto &t : th) t.join(); }
+    // the main thread (the first one that ever used the FFT in this process) evaluates alongside the workers
+    if (mode & 8) { for (int i = 0; i < iters; i++) { std::vector<std::thread> th; for (int t = 0; t < nt; t++) th.emplace_back(worker, t, i, i + 1); worker(nt, i, i + 1); for (auto &t : th) t.join(); } }
+    else { std::vector<std::thread> th; for (int t = 0; t < nt; t++) th.emplace_back(worker, t, 0, iters); worker(nt, 0, iters); for (auto &t : th) t.join(); }
     stop = true; if (keygen.joinable()) keygen.join();
+    r.push_back(mism); r.push_back(evals); r.push_back(fmism);
+}
+// keythread <spec> seed : the key set generated by a fresh thread from the same seed is the same key set (secret keys, bootstrapping
+// key, its FFT image, key-switching key), and gates evaluated with it give the reference outputs
+static void op_keythread(const V &a, V &r) {
+    need_keys(a);
+    const int n = cur.params->in_out_params->n; const ll *v = a.data() + SPECN;
+    std::vector<Work> ws; make_work(ws, 4, n, (unsigned) v[0]);
+    for (auto &wk : ws) eval_work(wk, wk.ref, n);
+    uint64_t h0 = hash_cloud(&cur.sk->cloud);
+    TFheGateBootstrappingSecretKeySet *sk2 = 0;
+    std::thread t([&]() { uint32_t seed = (uint32_t) a[9]; tfhe_random_generator_setSeed(&seed, 1); sk2 = new_random_gate_bootstrapping_secret_keyset(cur.params); });
+    t.join();
+    long mism = 0, evals = 0;
+    r.push_back(hash_cloud(&sk2->cloud) == h0 ? 0 : 1);
+    TFheGateBootstrappingSecretKeySet *keep = cur.sk; cur.sk = sk2;
+    for (auto &wk : ws) { std::vector<int32_t> o; eval_work(wk, o, n); evals++; if (o != wk.ref) mism++; }
+    cur.sk = keep; delete_gate_bootstrapping_secret_keyset(sk2);
     r.push_back(mism); r.push_back(evals);
 }
 // history <spec> seed : the same evaluations after different histories on the same thread
@@ -291,6 +312,7 @@ int main() {
         if (op == "alias") op_alias(a, r);
         else if (op == "frame") op_frame(a, r);
         else if (op == "threads") op_threads(a, r);
+        else if (op == "keythread") op_keythread(a, r);
         else if (op == "history") op_history(a, r);
         else if (op == "footprint") op_footprint(a, r);
         else if (op == "poison") op_poison(a, r);
